@@ -5,31 +5,44 @@ C02 — dispatching never panics and yields exactly the outcome of the decision 
         `acceptLoop_complete`, `consumeLoop_complete`, `matchesAccept_iff`, `matchesContentType_iff`
   (2) totality                                              — `C02_total` (below), `C02_total_curly`,
         `C02_total_jsr`
-  (3) classification, CurlyRouter                           — `C02_classify_curly_partial` (`ClassifyCurly`)
+  (3) classification, CurlyRouter                           — `C02_classify_curly` (`ClassifyCurly`), full
   (4) classification, RouterJSR311                          — `C02_classify_jsr_partial` (`ClassifyJsr`)
-  (5) why the hypotheses are there                          — `C02_F03_witness`, `C02_roots_witness`
-        (below), `matchesAccept_iff_needs_hygiene` (`ClassifyHeaders`)
-  (6) the repaired F04 (one notion of "has a body")         — `C02_F04_fixed` (below): the former
+  (5) why the hypotheses are there                          — `C02_roots_witness`,
+        `C02_curly_roots_witness`, `C02_curly_rootverb_witness` (below),
+        `matchesAccept_iff_needs_hygiene` (`ClassifyHeaders`)
+  (6) the repaired F03 (the expression of a root variable)  — `C02_F03_fixed` (below): the former
+        witness table and request now run the second service's route; `noRootRegex` is no hypothesis
+        any more
+  (7) the repaired F04 (one notion of "has a body")         — `C02_F04_fixed` (below): the former
         witness request now gets what the decision table says; `bodyCoherent` is no hypothesis any more
 
-Deviation from the statements first written down: under RouterJSR311 a WebService WITHOUT routes
-has a root path about which `Config.wfTemplates` says nothing; `compile` can fail on it (slice
-bounds in `{a:`), and the model panics on every request.  Totality and classification for
-RouterJSR311 therefore carry the hypothesis `Jsr.rootsRead cfg` (`C02_roots_witness` shows it cannot
-be dropped).
+Deviation from the statements first written down: a WebService WITHOUT routes has a root path about
+which `Config.wfTemplates` says nothing.
+  * RouterJSR311: `compile` can fail on it (slice bounds in `{a:`), and the model panics on every
+    request.  Totality and classification for RouterJSR311 therefore carry the hypothesis
+    `Jsr.rootsRead cfg` (`C02_roots_witness` shows it cannot be dropped).
+  * CurlyRouter, since fix 19aa57d: `computeWebserviceScore` cuts the expression out of every root
+    token `{…:…` with `regularMatchesPathToken`, which panics on `{a:` (`C02_curly_roots_witness`) and
+    which does not strip a custom verb first: on the root token `{id}:go` it evaluates the
+    "expression" `g` (`C02_curly_rootverb_witness`).  Totality and classification for CurlyRouter
+    therefore carry `Curly.rootsRead cfg`: the root of a route-less service reads as a template none
+    of whose tokens carries a custom verb.  For a service WITH routes `wfTemplates` already gives
+    this (`Curly.rootGood_of_route`).
 -/
 import Restful.Lemmas.ClassifyJsr
 namespace Restful
 open Str
 
 /-- **C02, totality**: on a table of checked templates no request makes the router panic.
-    (`hroots` concerns RouterJSR311 only: root paths of services without routes read as templates.) -/
+    (`hrootsJ` / `hrootsC`: root paths of services without routes read as templates, for the router
+    in use.) -/
 theorem C02_total (E : ReEnv) (cfg : Config) (hwf : cfg.wfTemplates = true)
-    (hroots : cfg.router = .jsr → Jsr.rootsRead cfg = true) (req : Req) :
+    (hrootsJ : cfg.router = .jsr → Jsr.rootsRead cfg = true)
+    (hrootsC : cfg.router = .curly → Curly.rootsRead cfg = true) (req : Req) :
     ∀ w, route E cfg req ≠ .panic w := by
   cases hk : cfg.router with
-  | curly => exact C02_total_curly E cfg hk hwf req
-  | jsr => exact C02_total_jsr E cfg hk hwf (hroots hk) req
+  | curly => exact C02_total_curly E cfg hk hwf (hrootsC hk) req
+  | jsr => exact C02_total_jsr E cfg hk hwf (hrootsJ hk) req
 
 namespace C02Witness
 
@@ -52,17 +65,24 @@ def cfg03 : Config := { router := .curly, services :=
 
 def req03 : Req := { method := "GET".toList, path := "/123".toList }
 
-/-- F03: every hypothesis of `C02_classify_curly_partial` but `noRootRegex` holds; CurlyRouter picks
-    the first service (both roots score alike, the expression is not looked at), finds no route there
-    and answers 404, while the only root that claims `/123` is the second one, whose route 1 must run -/
-theorem _root_.Restful.C02_F03_witness :
-    cfg03.wfTemplates = true ∧ Spec.mediaHygiene cfg03 = true ∧
+/-- F03, repaired: the former witness of the defect — roots `/{name:[a-z]+}` and `/{id:[0-9]+}`
+    (so `noRootRegex` fails), request `/123` — used to be answered 404 (both roots scored alike, the
+    expression was not looked at, the first service was picked and has no matching route);
+    `computeWebserviceScore` now evaluates the expression, only the second root claims `/123`, its
+    route 1 runs, which is what the decision table says -/
+theorem _root_.Restful.C02_F03_fixed :
+    cfg03.wfTemplates = true ∧ Spec.mediaHygiene cfg03 = true ∧ Curly.rootsRead cfg03 = true ∧
     Spec.noRootRegex cfg03 = false ∧
-    route E03 cfg03 req03 = .error 404 none ∧
+    route E03 cfg03 req03 = .selected 1 1 [("id".toList, "123".toList)] ∧
     (Spec.bestServices E03 cfg03 req03).map (·.id) = [1] ∧
     (Spec.bestServices E03 cfg03 req03).map (fun s => Spec.classifyIn E03 .curly s.built req03) = [.runs [1]] ∧
-    Spec.c02Holds E03 cfg03 req03 (route E03 cfg03 req03) 0 = false := by
+    Spec.c02Holds E03 cfg03 req03 (route E03 cfg03 req03) 1 = true := by
   decide
+
+/-- the same fact as an instance of the general theorem, which no longer asks for `noRootRegex` -/
+example : Spec.c02Holds E03 cfg03 req03 (route E03 cfg03 req03)
+    (match route E03 cfg03 req03 with | .selected _ _ _ => 1 | _ => 0) = true :=
+  C02_classify_curly E03 cfg03 rfl (by decide) (by decide) (by decide) req03
 
 /-! ### F04: a chunked body -/
 
@@ -79,7 +99,7 @@ def req04 : Req :=
     body"); `detectRoute` now asks `ContentLength` in both places and answers 406, as the decision
     table says -/
 theorem _root_.Restful.C02_F04_fixed :
-    cfg04.wfTemplates = true ∧ Spec.mediaHygiene cfg04 = true ∧ Spec.noRootRegex cfg04 = true ∧
+    cfg04.wfTemplates = true ∧ Spec.mediaHygiene cfg04 = true ∧ Curly.rootsRead cfg04 = true ∧
     Spec.bodyCoherent req04 = false ∧
     route Eany cfg04 req04 = .error 406 none ∧
     (Spec.bestServices Eany cfg04 req04).map (fun s => Spec.classifyIn Eany .curly s.built req04) = [.status 406 none] ∧
@@ -89,7 +109,7 @@ theorem _root_.Restful.C02_F04_fixed :
 /-- the same fact as an instance of the general theorem, which no longer asks for `bodyCoherent` -/
 example : Spec.c02Holds Eany cfg04 req04 (route Eany cfg04 req04)
     (match route Eany cfg04 req04 with | .selected _ _ _ => 1 | _ => 0) = true :=
-  C02_classify_curly_partial Eany cfg04 rfl (by decide) (by decide) (by decide) req04
+  C02_classify_curly Eany cfg04 rfl (by decide) (by decide) (by decide) req04
 
 /-! ### a route-less service with an unreadable root under RouterJSR311 -/
 
@@ -104,15 +124,54 @@ theorem _root_.Restful.C02_roots_witness :
       (route Eany cfgRoots { method := "GET".toList, path := "/x".toList }) 0 = false := by
   decide
 
+/-! ### a route-less service with an unreadable root, or a root token with a custom verb, under CurlyRouter -/
+
+def cfgRootsC : Config := { router := .curly, services := [ { id := 0, root := "/{a:".toList, routes := [] } ] }
+
+/-- without `Curly.rootsRead` a checked table can make CurlyRouter panic: `wfTemplates` is vacuous
+    for a service without routes, `regularMatchesPathToken` slices `"{a:"[3:2]` when the root is scored -/
+theorem _root_.Restful.C02_curly_roots_witness :
+    cfgRootsC.wfTemplates = true ∧ Spec.mediaHygiene cfgRootsC = true ∧ Curly.rootsRead cfgRootsC = false ∧
+    route Eany cfgRootsC { method := "GET".toList, path := "/x".toList } = .panic "curly.score" ∧
+    Spec.c02Holds Eany cfgRootsC { method := "GET".toList, path := "/x".toList }
+      (route Eany cfgRootsC { method := "GET".toList, path := "/x".toList }) 0 = false := by
+  decide
+
+/-- an oracle that evaluates the expression `g` faithfully -/
+def Eg : ReEnv := ⟨fun e s => if e = "g".toList then s.contains 'g' else true, fun _ _ => true⟩
+
+/-- a route-less service `/a/{id}:go` (the root reads as a template, its last token carries a custom
+    verb) and a service `/{x}/{y}` with a route -/
+def cfgVerb : Config := { router := .curly, services :=
+  [ { id := 0, root := "/a/{id}:go".toList, routes := [] },
+    { id := 1, root := "/{x}/{y}".toList, routes := [rd 1 "GET" "" ([]) ([])] } ] }
+
+/-- the second clause of `Curly.rootsRead` (no custom verb on a root token of a route-less service)
+    cannot be dropped: `computeWebserviceScore` does not strip `:go` before it cuts the expression
+    out of `{id}:go`, evaluates `g` against the URL segment `5`, and lets the first root NOT claim
+    `/a/5`, which `Spec.claimScore` says it does (score 21 against 2): the router runs route 1 of
+    the second service where the decision table says 404 -/
+theorem _root_.Restful.C02_curly_rootverb_witness :
+    cfgVerb.wfTemplates = true ∧ Spec.mediaHygiene cfgVerb = true ∧ Curly.rootsRead cfgVerb = false ∧
+    (cfgVerb.services.all (fun s => (readToks (tokenize s.rootPath)).isSome)) = true ∧
+    route Eg cfgVerb { method := "GET".toList, path := "/a/5".toList } =
+      .selected 1 1 [("x".toList, "a".toList), ("y".toList, "5".toList)] ∧
+    (Spec.bestServices Eg cfgVerb { method := "GET".toList, path := "/a/5".toList }).map (·.id) = [0] ∧
+    Spec.c02Holds Eg cfgVerb { method := "GET".toList, path := "/a/5".toList }
+      (route Eg cfgVerb { method := "GET".toList, path := "/a/5".toList }) 1 = false := by
+  decide
+
 /-! ### non-vacuity -/
 
-/-- two services (one with a variable root), routes with Consumes/Produces -/
+/-- two services (one with a variable root), routes with Consumes/Produces; a third, route-less
+    one with a regex variable in its root (what `Curly.rootsRead` / `Jsr.rootsRead` speak about) -/
 def services : List Service :=
   [ { id := 0, root := "/users".toList, routes :=
         [ rd 1 "POST" "" (["application/json"]) (["application/json"]),
           rd 2 "GET" "/{id}" ([]) (["application/json", "text/plain"]),
           rd 3 "PUT" "/{id}" (["application/xml"]) (["application/json"]) ] },
-    { id := 1, root := "/orgs/{org}".toList, routes := [ rd 4 "GET" "/things" ([]) ([]) ] } ]
+    { id := 1, root := "/orgs/{org}".toList, routes := [ rd 4 "GET" "/things" ([]) ([]) ] },
+    { id := 2, root := "/v/{n:[0-9]+}".toList, routes := [] } ]
 
 def cfgC : Config := { router := .curly, services := services }
 def cfgJ : Config := { router := .jsr, services := services }
@@ -122,15 +181,15 @@ def post : Req :=
   { method := "POST".toList, path := "/users".toList, contentType := "application/json; charset=utf-8".toList,
     accept := "text/html, application/json;q=0.9".toList, clenHeader := "2".toList, contentLength := 2 }
 
-/-- the hypotheses of `C02_classify_curly_partial` hold here, and a route runs -/
+/-- the hypotheses of `C02_classify_curly` hold here, and a route runs -/
 example :
-    cfgC.wfTemplates = true ∧ Spec.mediaHygiene cfgC = true ∧ Spec.noRootRegex cfgC = true ∧
+    cfgC.wfTemplates = true ∧ Curly.rootsRead cfgC = true ∧ Spec.mediaHygiene cfgC = true ∧
       route Eany cfgC post = .selected 0 1 [] := by
   decide
 
 example : Spec.c02Holds Eany cfgC post (route Eany cfgC post)
     (match route Eany cfgC post with | .selected _ _ _ => 1 | _ => 0) = true :=
-  C02_classify_curly_partial Eany cfgC rfl (by decide) (by decide) (by decide) post
+  C02_classify_curly Eany cfgC rfl (by decide) (by decide) (by decide) post
 
 /-- the other rows of the table on the same services: 405 with Allow, 415 (body, Content-Type not
     consumed), 406, 404 inside the best service, 404 without a service -/
